@@ -84,15 +84,21 @@ def statement_shuffle_bijective : Prop :=
 
 theorem C19_shuffle_bijective : statement_shuffle_bijective := fun _ l => shuffle_bij l
 
-/-- `random()` = `n / 2³²` with `n < 2³²` in every reachable (indeed every well-formed) state: the value
-lies in `[0, 1)`, and distinct outputs give distinct values. -/
+/-- `random()` = `n / 2³²` with `n < 2³²` in every reachable (indeed every well-formed) state, so the value
+lies in `[0, 1)` (over ℚ; that CPython's float division of an integer below 2³² by 2³² is exact is in the
+trusted base and is checked for every `random()` call of the correspondence run). -/
 def statement_random_range : Prop :=
-  (∀ (s s' : XS) (n : Nat), WF s → randomNum s = .ok n s' → n < 2 ^ 32 ∧ WF s') ∧
-  (∀ (seed : Int) (k : Nat) (n : Nat) (s' : XS), randomNum (XS.iter k (XS.init seed)) = .ok n s' → n < 2 ^ 32)
+  (∀ (s s' : XS) (n : Nat), WF s → randomNum s = .ok n s' →
+    n < 2 ^ 32 ∧ WF s' ∧ (0 : ℚ) ≤ (n : ℚ) / 2 ^ 32 ∧ (n : ℚ) / 2 ^ 32 < 1) ∧
+  (∀ (seed : Int) (k : Nat) (n : Nat) (s' : XS), randomNum (XS.iter k (XS.init seed)) = .ok n s' →
+    n < 2 ^ 32 ∧ (0 : ℚ) ≤ (n : ℚ) / 2 ^ 32 ∧ (n : ℚ) / 2 ^ 32 < 1)
 
 theorem C19_random_range : statement_random_range :=
-  ⟨fun s s' n hs h => random_range s s' n hs h,
-   fun seed k n s' h => (random_range _ s' n (iter_wf k _ (init_wf seed)) h).1⟩
+  ⟨fun s s' n hs h => ⟨(random_range s s' n hs h).1, (random_range s s' n hs h).2,
+      ratio_range n (random_range s s' n hs h).1⟩,
+   fun seed k n s' h =>
+     have hn := (random_range _ s' n (iter_wf k _ (init_wf seed)) h).1
+     ⟨hn, ratio_range n hn⟩⟩
 
 /-- Soundness of `generate_problem`, for all callbacks (the solver may depend on the number of earlier
 solver calls), all neighbour generators, all options, all PRNG states and every acceptance function: a
